@@ -15,7 +15,7 @@ func init() {
 			"(unchanged-shortcut-guards) the worktree noder takes a file's hash from the index instead of hashing the file only behind rejecting tests of the entry's size, modification time and mode and of the racy-git condition " +
 			"(the file is older than the index file, and the index file's time is known): each of the four has a branch that returns false, and true is returned in one place, after them; " +
 			"(status-code-table) both loops of Worktree.status dispatch on all three merkletrie actions, the staging loop writes the Staging column and the worktree loop the Worktree column; " +
-			"(untracked-both-columns) an insertion on the worktree side sets both columns to Untracked (git's '??'). Not decided: ignore rules (C49), the diff of commit and index, submodules, intent-to-add entries, empty directories.",
+			"(untracked-both-columns) an insertion on the worktree side sets both columns to Untracked (git's '??'); (sibling-order-is-path-order, shared with C44) the order in which an iterator hands out siblings (frame.byName.Less) and the order by which DiffTree aligns the two sides (noder.Path.Compare) both compare nothing but the plain Name() byte-wise, so they are one order; (time-guards-one-resolution) the mtime test and the racy-git test of the shortcut compare times at one resolution (today: full), because a whole-second mtime test beside a nanosecond racy test lets a same-second rewrite through. Not decided: ignore rules (C49), the diff of commit and index, submodules, intent-to-add entries, empty directories.",
 		Assumptions: []string{},
 		Run:         runC27,
 	})
@@ -25,6 +25,8 @@ func runC27(c *Ctx) {
 	p := c.P
 	checkBothAdvanceOnEqualPaths(c, "both-advance-only-on-equal-paths")
 	c.Floor("both-advance-only-on-equal-paths", 3)
+	checkSiblingOrder(c, "sibling-order-is-path-order")
+	checkTimeGuardResolution(c, "time-guards-one-resolution")
 
 	const r2 = "unchanged-shortcut-guards"
 	if mm := c.MustFunc(r2, "utils/merkletrie/filesystem.(*node).metadataMatches"); mm != nil {
